@@ -265,7 +265,7 @@ def gen_container(cls, rng, tier):
         steps = g.steps() + ["gnew"] + ["gins 0 %d" % u for u in range(g.n) if gi < 2 or rng.random() < 0.7]
         for ga in (0, 1, 2):
             for na in (0, 1, 2):
-                for ea in (0, 1, 2):
+                for ea in (0, 1, 2, 3, 4):
                     if cls == "U":
                         steps.append("only:ungraph gdota 0 %d %d %d" % (ga, na, ea))
                     else:
@@ -326,7 +326,7 @@ def gen_container(cls, rng, tier):
                 qs = ["glen", "gvec", "giter", "gorph", "gdot"] + (["groots", "gleaves"] if cls == "D" else [])
                 steps.append("%s %d" % (rng.choice(qs), g))
             else:
-                steps.append(("only:ungraph " if cls == "U" else "") + "gdota %d %d %d %d" % (g, rng.randrange(3), rng.randrange(3), rng.randrange(3)))
+                steps.append(("only:ungraph " if cls == "U" else "") + "gdota %d %d %d %d" % (g, rng.randrange(3), rng.randrange(3), rng.randrange(5)))
         steps.append("snap")
         cases.append(Case("kr%s%d" % (cls, ci), cls, steps, dict(kind="random-container-history")))
     # large containers (100-300 members): views and lookups after many inserts / removes
@@ -591,15 +591,23 @@ def oracle_container(case, obs):
             if sorted(nodes_t) != sorted(want_n):
                 bad = sorted(set(nodes_t) ^ set(want_n))[:4]
                 return "step %d `%s`: node statements differ from what the callback supplies, e.g. %s" % (si, st, bad)
+            # edge statements with exactly the attributes the edge callback supplies for (source, target, value) IN THAT ORDER
+            ea = t[4] if op == "gdota" else "0"
             want = []
             for k in mem:
                 u = g[k]
                 lst = out[u] if cls == "D" else out[u] + inn[u]
                 for (v, e) in lst:
-                    want.append("%d>%d" % (k, nkeys[v]))
-            got = sorted(x.split(":")[1] for x in edges_t)
-            if got != sorted(want):
-                return "step %d `%s`: edge statements %s, expected %s" % (si, st, got, sorted(want))
+                    kv = nkeys[v]
+                    if ea == "1" or (ea == "2" and e % 2 == 0) or (ea == "4" and k < kv):
+                        want.append('E:%d>%d:[w="%d"]' % (k, kv, e))
+                    elif ea == "3":
+                        want.append('E:%d>%d:[p="%d>%d:%d"]' % (k, kv, k, kv, e))
+                    else:
+                        want.append("E:%d>%d" % (k, kv))
+            if sorted(edges_t) != sorted(want):
+                bad = sorted(set(edges_t) ^ set(want))[:4]
+                return "step %d `%s`: edge statements differ from the member edges with the attributes the callback supplies, e.g. %s" % (si, st, bad)
     return None
 
 
